@@ -236,6 +236,7 @@ def _refparse_patterns(lines):
     patterns, bad = [], set()
     pat, occ = None, None
     unspec = None
+    unspec_num = False
     for ln, line in enumerate(lines, 1):
         if "pattern" in line:
             if occ is not None and not occ:
@@ -261,7 +262,7 @@ def _refparse_patterns(lines):
             continue
         c0, c1 = classify_number(toks[0]), classify_number(toks[1])
         if c0[0] == "unspec" or c1[0] == "unspec":
-            unspec = "number spelling"
+            unspec_num = True
             continue
         if c0[0] != "num" or c1[0] != "num":
             bad.add(ln)
@@ -274,6 +275,9 @@ def _refparse_patterns(lines):
         unspec = "occurrence without points"
     if pat is not None and not pat:
         unspec = "pattern without occurrences"
+    if unspec_num:
+        # the loader may or may not reject such a spelling, at that row, before reaching any bad row
+        return {"kind": "UNSPEC", "why": "number spelling"}
     if unspec is not None and not bad:
         return {"kind": "UNSPEC", "why": unspec}
     if bad:
